@@ -318,6 +318,7 @@ class Store:
         self.attrs = {c: {} for c in model.configs}      # cfg -> {sidecar_key: dict}
         self.paths = {c: {} for c in model.configs}      # cfg -> {string: path}
         self.created = {c: [] for c in model.configs}    # creation order (directly created)
+        self.own = {c: {} for c in model.configs}        # cfg -> {string: overlay of what was written to this Sid}
 
     def clone(self):
         s = Store(self.m)
@@ -325,6 +326,7 @@ class Store:
         s.attrs = {c: {k: json.loads(json.dumps(d)) for k, d in v.items()} for c, v in self.attrs.items()}
         s.paths = {c: dict(v) for c, v in self.paths.items()}
         s.created = {c: list(v) for c, v in self.created.items()}
+        s.own = {c: {k: json.loads(json.dumps(d)) for k, d in v.items()} for c, v in self.own.items()}
         return s
 
     def exists(self, cfg, string):
@@ -374,6 +376,7 @@ class Store:
         k = self.key_of(cfg, string)
         d = self.attrs[cfg].setdefault(k, {})
         d.update(json.loads(json.dumps(data)))
+        self.own[cfg].setdefault(string, {}).update(json.loads(json.dumps(data)))
 
     def data(self, cfg, string):
         p = self.m.path_of_sid(string, cfg)
